@@ -151,7 +151,11 @@ pub fn run(ctx: &mut Ctx) {
                 // one-shot callers size their buffers): copies that end at or near the end of the room
                 if it.intact_valid {
                     let want = it.gen.expected.as_ref().unwrap();
-                    if !want.is_empty() && want.len() <= 70000 {
+                    // (with a windowBits argument smaller than the window the zlib header announces the stream is
+                    // refused whatever the room: the ample-room run, judged above, is the baseline)
+                    c.exec();
+                    let t0 = run_inflate::<Rs>(it.wb, it.bytes, &ISched::one_shot(), &env, &IExtra { expect_out: want.len(), ..Default::default() }, None)?;
+                    if t0.fin == Fin::StreamEnd && !want.is_empty() && want.len() <= 70000 {
                         for k in [0usize, 1, 2, 7, 8, 15, 16, 31, 32, 33, 63, 64] {
                             c.exec();
                             let s = ISched { steps: vec![IStep { n: AMPLE, room: want.len() + k, flush: if k % 2 == 0 { Z_FINISH } else { Z_NO_FLUSH } }], tail_in: AMPLE, tail_room: AMPLE, tail_flush: Z_NO_FLUSH };
